@@ -383,3 +383,31 @@ theorem sGet_fold (cs : List Captured) (acc : List (Str × FillFn)) (c : Capture
 
 
 end Djc.Proofs.Render
+
+namespace Djc.Proofs.Render
+open Djc.Tpl Djc.Render
+
+/-- newer binding wins -/
+def orOld (newer older : Option Val) : Option Val :=
+  match newer with
+  | some v => some v
+  | Option.none => older
+
+theorem ctxGet_append (a b : Ctx) (x : Str) : ctxGet (a ++ b) x = orOld (ctxGet b x) (ctxGet a x) := by
+  induction hn : b.length generalizing b with
+  | zero =>
+    have : b = [] := List.length_eq_zero_iff.mp hn
+    subst this
+    simp [orOld, ctxGet]
+  | succ n ih =>
+    rcases List.eq_nil_or_concat b with hb | ⟨b', l, hb⟩
+    · subst hb; simp at hn
+    · subst hb
+      rw [List.concat_eq_append] at hn ⊢
+      rw [← List.append_assoc, ctxGet_append_one, ctxGet_append_one, ih b' (by simpa using hn)]
+      cases lookupL x l <;> simp [orOld]
+
+theorem insertAt_eq {α} (i : Nat) (e : α) (c : List α) : insertAt i e c = c.take i ++ [e] ++ c.drop i := by
+  simp [insertAt]
+
+end Djc.Proofs.Render
